@@ -49,6 +49,9 @@ Calibration (unchanged tree)
   gives NaN resp. n/(n-ddof); dask and scipy return the constant 1 / 0 "by definition").
 * datetime64/timedelta64 are generated for min/max/argmin/argmax only: NumPy's nanargmin/nanargmax do not
   treat NaT as missing while nanmin/nanmax do, so the nan-variants have no consistent reference there.
+* quantile/nanquantile: the lazy dtype is not compared with the computed one: np.quantile of float32 data
+  with a float64 q returns float32 for slices that contain NaN (all-NaN for nanquantile) and float64
+  otherwise, so no lazy dtype can match; the computed dtype is still compared with NumPy's.
 * var/std/moment tolerance uses the eps of the less precise of (input dtype, result dtype): np.nanvar
   stores the deviations in the input precision (``out=arr``) even when ``dtype=float64`` is requested.
 * topk/argtopk with |k| > axis length and with NaN data are outside the domain (no NumPy reference).
@@ -366,13 +369,23 @@ def _feat(case, x, symptom):
             f.append("nonfinite")
         if family(op) == "topk" and abs(case["k"]) == x.shape[case["axis"]]:
             f.append("|k|==n")
-        if case.get("ddof", 0) >= 2:
-            f.append("ddof>=2")
+        if "ddof" in case and _count_le_ddof(case, x):
+            f.append("count<=ddof")
         if family(op) == "cum":
             f.append(case["method"])
             if case.get("dtype_arg"):
                 f.append("dtype=given")
     return "&".join(f) if f else "any"
+
+
+def _count_le_ddof(case, x):
+    """some reduced slice has no more (valid) elements than ddof"""
+    red = _norm_axes(_axis(case.get("axis")), x.ndim)
+    if case["op"].startswith("nan") and x.dtype.kind in "fc":
+        cnt = (~np.isnan(x)).sum(axis=red)
+    else:
+        cnt = np.asarray(int(np.prod([x.shape[a] for a in red])) if red else 1)
+    return bool((cnt <= case["ddof"]).any())
 
 
 def _exc_prefix(case, x):
@@ -578,7 +591,9 @@ def run_case(case, ctx):
                 if m:
                     bad = True
                     lab_op, feat = op, (m[2] if len(m) > 2 else _feat(case, x, m[0]))
-                    if m[0] == "tie-break-differs":
+                    if op in STDLIKE and m[0] == "values" and _var_also_differs(case, op, dx, x, se, kw, nred, scale):
+                        lab_op = op.replace("std", "var")   # std = sqrt(var): the mechanism is in var
+                    elif m[0] == "tie-break-differs":
                         lab_op = "arg-reduction"   # the four functions share arg_reduction/_arg_combine
                     elif fam == "cum" and case["method"] == "blelloch" and m[0] == "values" \
                             and _sequential_agrees(case, op, dx, e, axis, kw, nred, scale):
@@ -588,6 +603,8 @@ def run_case(case, ctx):
                                   split_every=repr(se), lazy=(str(r.shape), str(r.dtype)))
                 ctx.count("lazy_meta_checked")
                 lm = lazy_meta_mismatch(r, rv)
+                if lm and fam == "quant" and lm[0] == "lazy-dtype":
+                    lm = None   # NumPy's quantile result dtype is value dependent (NaN content): see Calibration
                 if lm:
                     bad = True
                     ctx.violation("%s:%s:%s" % (op, _feat(case, x, lm[0]), lm[0]), lm[1], split_every=repr(se))
@@ -603,6 +620,19 @@ def run_case(case, ctx):
     ctx.sample = {"op": op, "chunks": case["chunks"], "axis": case.get("axis"), "split_every": case.get("ses"),
                   "result_shape": list(rv0.shape), "dtype": str(rv0.dtype),
                   "tolerance": list(float_tol(e.dtype, n=nred, scale=scale)) if e.dtype.kind in "fc" else "exact"}
+
+
+def _var_also_differs(case, op, dx, x, se, kw, nred, scale):
+    """Classifier helper: does the corresponding var / nanvar differ from NumPy on the same input?"""
+    import dask.array as da
+
+    vop = op.replace("std", "var")
+    try:
+        e = np.asarray(getattr(np, vop)(x, **kw))
+        rv = getattr(da, vop)(dx, split_every=se, **kw).compute(scheduler="sync")
+        return compare_arrays(rv, e, exact=False, **_tol_args(vop, case, nred, scale, e)) is not None
+    except Exception:  # noqa: BLE001
+        return False
 
 
 def _sequential_agrees(case, op, dx, e, axis, kw, nred, scale):
